@@ -158,7 +158,7 @@ func pairsValid(pairs paramtypes.ParamSetPairs) bool {
 
 var paramKeyOf = map[string]map[string]string{
 	"storage": {"collateralPrice": "CollateralPrice", "attestMinToPass": "AttestMinToPass", "attestFormSize": "AttestFormSize", "proof_window": "ProofWindow",
-		"price_per_tb_per_month": "PricePerTbPerMonth", "pol_ratio": "POLRatio", "referral_commission": "Referrals", "check_window": "CheckWindow", "chunk_size": "ChunkSize"},
+		"price_per_tb_per_month": "PricePerTbPerMonth", "pol_ratio": "POLRatio", "referral_commission": "Referrals", "check_window": "CheckWindow", "chunk_size": "ChunkSize", "misses_to_burn": "MissesToBurn", "max_contract_age_in_blocks": "MaxContractAgeInBlocks"},
 	"mint": {"mint_denom": "MintDenom", "mint_decrease": "MintIncrease", "tokens_per_block": "TokensPerBlock", "dev_grants_ratio": "DevGrants", "staker_ratio": "StakerRatio", "storage_provider_ratio": "ProviderRatio"},
 }
 
